@@ -2,7 +2,8 @@
 
    Transcribed from (line numbers of the current tree):
      wbxml_tree.c     wbxml_tree_to_xml (options -> encoder setters), wbxml_tree_node_have_child_elt
-     wbxml_encoder.c  wbxml_encoder_encode_tree_to_xml / encoder_encode_tree / parse_node / parse_element /
+     wbxml_encoder.c  wbxml_encoder_encode_tree_to_xml / encoder_encode_tree / parse_node (loop over the siblings) /
+                      parse_single_node / parse_element /
                       parse_attribute / parse_text / parse_cdata / parse_pi / parse_tree (output_type = XML),
                       xml_build_result, xml_fill_header, xml_encode_tag, xml_encode_end_tag, xml_encode_attr,
                       xml_encode_end_attrs, xml_encode_text, xml_encode_text_entities, xml_encode_new_line,
@@ -344,7 +345,8 @@ Definition parse_text (l : xlang) (o : opts) (s : est) (content : bytes) : xres 
 Definition reset_cur (s : est) : est := mk_est (e_indent s) (e_in_content s) (e_in_cdata s) None.
 Definition set_cdata (b : bool) (s : est) : est := mk_est (e_indent s) (e_in_content s) b (e_cur_tag s).
 
-(* a node and then its next siblings: parse_node(node) ... return parse_node(node->next) *)
+(* parse_node: while (node != NULL) { parse_single_node(node); node = node->next; }  — parse_single_node ends
+   with current_tag = NULL.  A NULL first node (empty list) emits nothing and succeeds. *)
 Definition seq_nodes (f : est -> node -> xres (bytes * est)) : list node -> est -> xres (bytes * est) :=
   fix go (ns : list node) (s : est) : xres (bytes * est) :=
     match ns with
@@ -389,13 +391,9 @@ Fixpoint enc_node (l : xlang) (o : opts) (parent : pinfo) (s : est) (n : node) {
     match sl with
     | None => XErr X_BAD_PARAMETER
     | Some l' =>
-      match roots with
-      | [] => XErr X_BAD_PARAMETER     (* tree->root == NULL: not produced by the tree builder *)
-      | _ =>
-        match seq_nodes (enc_node l' o PRoot) roots (est0 (e_indent s)) with
-        | XOk (b, _) => XOk (cstr b, s)
-        | XErr e => XErr e
-        end
+      match seq_nodes (enc_node l' o PRoot) roots (est0 (e_indent s)) with
+      | XOk (b, _) => XOk (cstr b, s)
+      | XErr e => XErr e
       end
     end
   end.
@@ -405,13 +403,9 @@ Definition enc_nodes (l : xlang) (o : opts) (parent : pinfo) : list node -> est 
 
 (* wbxml_tree_to_xml: header (xml_build_result / xml_fill_header) followed by the body *)
 Definition enc_xml_opts (l : xlang) (o : opts) (roots : list node) : xres bytes :=
-  match roots with
-  | [] => XErr X_BAD_PARAMETER
-  | _ =>
-    match enc_nodes l o PRoot roots (est0 0) with
-    | XOk (b, _) => XOk (xml_header l o ++ b)
-    | XErr e => XErr e
-    end
+  match enc_nodes l o PRoot roots (est0 0) with
+  | XOk (b, _) => XOk (xml_header l o ++ b)
+  | XErr e => XErr e
   end.
 
 Definition enc_xml (l : xlang) (g : gen_type) (indent : N) (keep_ws : bool) (roots : list node) : xres bytes :=
